@@ -16,7 +16,7 @@ class Crash(BaseException):
 
 
 class FaultPlan:
-    """Fault at operation index `k`: mode in {'crash_before','crash_after','fail'}."""
+    """Fault at operation index `k`: mode in {'crash_before','crash_after','fail','fail_from'} ('fail_from': this and every later operation fails)."""
 
     def __init__(self, k=None, mode=None, errno_=5):
         self.k = k
@@ -248,6 +248,10 @@ class Layer:
             finally:
                 self._in_hook = False
         plan = self.plan
+        if plan.mode == "fail_from" and plan.k is not None and idx >= plan.k:
+            # the medium is gone from this point on (unplugged, remounted read-only): every later operation fails too
+            plan.fired = True
+            raise OSError(plan.errno, f"injected failure of {kind} (op {idx}, everything from op {plan.k} on fails)")
         if plan.k == idx and not plan.fired:
             plan.fired = True
             if plan.mode == "crash_before":
